@@ -1,0 +1,12 @@
+//go:build verif
+
+package dnsmessage
+
+// Name.unpack, resume offset (C36/C37): the offset at which the caller resumes is fixed by the
+// FIRST compression pointer (the two bytes behind it) and never changes while further pointers
+// are followed; without a pointer it stays the entry offset until the loop ends.
+
+//@ extend (*Name).unpack(n, msg, off) (newOff, err)
+//@   loop 1 step iterstart(ptr) > 0 ==> newOff == iterstart(newOff)
+//@   loop 1 step iterstart(ptr) == 0 && ptr == 1 ==> newOff == iterstart(currOff) + 2
+//@   loop 1 step ptr == iterstart(ptr) || ptr == iterstart(ptr) + 1
